@@ -49,7 +49,7 @@ def _one(job):
         for pid in caught_by:
             try:
                 ctx = report.Context(pid, repo, "quick")
-                importlib.import_module(f"sa.props.{pid}").check(ctx)
+                report.run_check(importlib.import_module(f"sa.props.{pid}"), ctx)
                 bad = [o for o in ctx.obligations if o.verdict == report.VIOLATED and not report.match_known(o, known)]
                 if bad:
                     return (rname, sname, "reported", f"{pid} {bad[0].rule}")
